@@ -17,7 +17,7 @@ ID = "C09"
 RULE = ("one case = one model (three state types, num_visible 1..4) on which SWAP(A) is evaluated for every subset A of "
         "sites (given as int, list, integer ndarray, LongTensor; empty set as empty list / empty integer array) on every "
         "ordered pair of basis states. Non-trivial: all parameters non-zero; distinct by sha256 of parameters.")
-REQUIRED = ["regions_checked", "ordered_pairs_evaluated", "pairing_checks", "protected_write_ops_inspected",
+REQUIRED = ["states_used_before_with_other_parameters", "regions_checked", "ordered_pairs_evaluated", "pairing_checks", "protected_write_ops_inspected",
             "region_formats_int", "region_formats_list", "region_formats_ndarray", "region_formats_tensor", "empty_region_checks"]
 ANCHOR_FILES = ["qucumber/observables/entanglement.py"]
 REACH = [
@@ -57,7 +57,15 @@ def run_case(case, ctx):
     nh = int(rng.integers(1, 4))
     na = int(rng.integers(1, 4))
     am, ph = gen.draw_model(rng, kind, nv, nh, na, scales=gen.SCALES_MODERATE if case["rep"] % 2 else [0.5, 1.0, 3.0])
-    st = gen.make_state(kind, am, ph)
+    if case["rep"] % 2:
+        def warm(s_):
+            sp_ = s_.generate_hilbert_space()
+            SWAP([0]).apply(s_, sp_), SWAP([]).apply(s_, sp_[:2])
+        st, how = gen.make_state_used(rng, kind, am, ph, warm)
+        ctx.count("states_used_before_with_other_parameters")
+        ctx.seen("parameter_change_idioms", how)
+    else:
+        st = gen.make_state(kind, am, ph)
     V = R.space(nv)
     N = len(V)
     kd, dense = R.state_dense(kind, am, ph, nv)
